@@ -403,3 +403,43 @@ func TestVerifC12Engine(t *testing.T) {
 		}
 	}
 }
+
+// TestVerifC12Alias reports which objects handed out or taken in by the state API are the
+// buffered objects themselves (evidence for the aliasing contract; nothing is asserted).
+func TestVerifC12Alias(t *testing.T) {
+	outp := os.Getenv("VERIF_OUT")
+	if outp == "" {
+		t.Skip("no VERIF_OUT")
+	}
+	store := db.NewDB(db.MemoryImpl, t.TempDir())
+	sdb := statedb.NewStateDB(store, nil, false)
+	res := map[string]bool{}
+	aid := types.ToAccountID([]byte("a0"))
+	in := &types.State{Balance: []byte{5}}
+	sdb.PutState(aid, in)
+	in.Balance = []byte{6}
+	st, _ := sdb.GetState(aid)
+	res["PutState_keeps_callers_pointer"] = st.Balance[0] == 6
+	st.Balance = []byte{7}
+	st2, _ := sdb.GetState(aid)
+	res["GetState_returns_buffered_pointer"] = st2.Balance[0] == 7
+	as, _ := GetAccountState([]byte("a0"), sdb)
+	as.AddBalance(big.NewInt(1))
+	st3, _ := sdb.GetState(aid)
+	res["AccountState_newState_is_a_copy_before_PutState"] = st3.Balance[0] == 7
+	as.PutState()
+	as.AddBalance(big.NewInt(1))
+	st4, _ := sdb.GetState(aid)
+	res["AccountState_aliases_buffer_after_PutState"] = new(big.Int).SetBytes(st4.Balance).Int64() == 9
+	cs, _ := statedb.OpenContractStateAccount([]byte("c0"), sdb)
+	v := []byte{1, 2}
+	cs.SetData([]byte("k0"), v)
+	v[0] = 9
+	g, _ := cs.GetData([]byte("k0"))
+	res["SetData_keeps_callers_slice"] = g[0] == 9
+	g[1] = 8
+	g2, _ := cs.GetData([]byte("k0"))
+	res["GetData_returns_buffered_slice"] = g2[1] == 8
+	b, _ := json.Marshal(res)
+	os.WriteFile(outp, b, 0644)
+}
